@@ -6,6 +6,7 @@ package column
 import (
 	"fmt"
 	"math"
+	"strings"
 	"sync"
 
 	"github.com/kelindar/bitmap"
@@ -182,7 +183,7 @@ func (c *columnString) Apply(chunk commit.Chunk, r *commit.Reader) {
 			data[offset] = string(r.Bytes())
 		case commit.Merge:
 			fill[offset>>6] |= 1 << (offset & 0x3f)
-			data[offset] = r.SwapString(c.Merge(data[offset], r.String()))
+			data[offset] = strings.Clone(r.SwapString(c.Merge(data[offset], r.String())))
 		case commit.Delete:
 			fill.Remove(uint32(offset))
 		}
